@@ -81,7 +81,46 @@ def workers_case(batchsize, num_workers):
     return None
 
 
+def tagged(a, b=0, c=0):
+    return f"{a!r}|{b!r}"
+
+
+def mixed_types_case(combos, cases):
+    """values of mixed type (int / float / str / bool / numpy scalars, hash-equal values) reach the function exactly as given"""
+    with tmpdir() as d, quiet():
+        crop = xyz.Crop(fn=tagged, name="m", parent_dir=d, batchsize=2)
+        if cases is None:
+            crop.sow_combos(combos)
+            direct = xyz.combo_runner(tagged, combos, verbosity=0)
+        else:
+            crop.sow_cases(["a", "b"], cases)
+            direct = xyz.combo_runner(tagged, cases=[dict(zip(["a", "b"], c_)) for c_ in cases], verbosity=0)
+        crop.grow_missing()
+        got = crop.reap()
+        if got != direct:
+            return [f"reaped {got!r} but a direct run gives {direct!r}"]
+        # a second crop of the same name in another directory, with another function
+        d2 = os.path.join(d, "elsewhere")
+        os.makedirs(d2)
+        other = xyz.Crop(fn=fn, name="m", parent_dir=d2, batchsize=2)
+        other.sow_combos({"a": [1, 2], "b": [3]})
+        other.grow_missing()
+        got2 = other.reap()
+        if not same(got2, xyz.combo_runner(fn, {"a": [1, 2], "b": [3]}, verbosity=0)):
+            return [f"a second crop with the same name in another directory reaped {got2!r}"]
+    return None
+
+
 tried = 0
+for combos, cases in (({"a": [1, 2.5, "x"], "b": [True, 0]}, None), ({"a": [np.int64(3), 4.0], "b": ["1", 1]}, None),
+                      (None, [(1, 2), (1.0, 2), (True, 2), (0, "2")])):
+    tried += 1
+    try:
+        pr = mixed_types_case(combos, cases)
+    except Exception as e:
+        pr = [f"{type(e).__name__}: {e}"]
+    if pr:
+        finish(True, input=dict(kind="combos" if cases is None else "cases", combos=combos, cases=cases, note="values of mixed type"), observed=pr, tried=tried)
 for bs, nw in ((4, 2), (8, 3)):
     tried += 1
     try:
